@@ -8,7 +8,7 @@
    A result `Ok ...` also says: no edge / mesh / accumulator access was out of bounds and no search ran away. *)
 From Coq Require Import ZArith QArith List Bool Permutation.
 From Abacus.Common Require Import Arr.
-From Abacus.C08 Require Import Parts Spec Model Gen ProofsSearch Proofs ProofsExt.
+From Abacus.C08 Require Import Parts Spec Model Gen ProofsSearch Proofs ProofsExt ProofsThreads.
 Import ListNotations.
 Local Open Scope Z_scope.
 
@@ -155,3 +155,24 @@ Theorem P_n_is_legendre : forall l, In l [0; 2; 4; 6; 8; 10] ->
   forall mu : Q, (P_n_even (mu * mu) l == legendre (Z.to_nat l) mu)%Q.
 Proof. exact P_n_is_legendre_lemma. Qed.
 Print Assumptions P_n_is_legendre.
+
+(* odd orders (valid input: poles may contain 1, 3, ...): with x = mu^2 the loop's half-integer powers x ** ((l-2k)/2) are
+   mu^(l-2k), and the sum is the Legendre polynomial P_l(mu), mu >= 0 — so an odd pole is the mode mean of
+   (2l+1) P_l(|mu|) * value; the two transcriptions of the loop agree on even orders *)
+Theorem P_n_odd_is_legendre : forall l, In l [1; 3; 5; 7; 9] ->
+  forall mu : Q, (P_n_mu mu l == legendre (Z.to_nat l) mu)%Q.
+Proof. exact P_n_odd_is_legendre_lemma. Qed.
+Print Assumptions P_n_odd_is_legendre.
+
+Theorem P_n_mu_even : forall l, In l [0; 2; 4; 6; 8; 10] ->
+  forall mu : Q, (P_n_mu mu l == P_n_even (mu * mu) l)%Q.
+Proof. exact P_n_mu_even_lemma. Qed.
+Print Assumptions P_n_mu_even.
+
+(* thread bookkeeping (the order of numba.set_num_threads / get_num_threads / accumulator allocation / prange loop is
+   regenerated from both kernels): whatever thread count earlier numba code left in force and whatever nthread is
+   requested, every accumulator indexed by numba.get_thread_id() has at least as many slabs as the loop has threads —
+   the hypothesis `0 <= sched i < T` of the counting theorems above is met by every thread id the loop can produce *)
+Theorem accumulators_cover_threads : threads_covered kmu_tevents /\ threads_covered kppi_tevents.
+Proof. exact (conj kmu_threads_covered_lemma kppi_threads_covered_lemma). Qed.
+Print Assumptions accumulators_cover_threads.
